@@ -119,8 +119,10 @@ Chk(ok, tag, detail, kf) == ok \/ PrintT(<<"VERR", LastEv.t, l, tag, detail, kf>
 KF_SGroupShrink ==
   \E n \in (DOMAIN SGrpOf(D0)) \cap (DOMAIN SGrpOf(T)) : ~(SGrpOf(D0)[n] \subseteq SGrpOf(T)[n])
 \* Known finding 13: a rule is switched to a renamed target group that a later rule maps onto a device group
+\* (the name clash: a target group whose name the device uses for a group with OTHER members, next to a second device group)
 KF_GroupNeverCreated == err = "rule references unknown address or address-group"
-                        /\ \E n \in DOMAIN GrpOf(T) : n \in DOMAIN GrpOf(D0)
+                        /\ \E n \in (DOMAIN GrpOf(T)) \cap (DOMAIN GrpOf(D0)) : GrpOf(T)[n] # GrpOf(D0)[n]
+                        /\ Cardinality(DOMAIN GrpOf(D0)) >= 2
 
 KFKey == IF KF_SGroupShrink THEN "PanosServiceGroupShrink" ELSE IF KF_GroupNeverCreated THEN "PanosGroupNeverCreated" ELSE ""
 
